@@ -121,8 +121,6 @@ func (w *wgReplay) standing() bool {
 	return true
 }
 
-var wgKeyOfGen sync.Map // not used across behaviours; per replay map below
-
 func (w *wgReplay) keyOf(gen int) int {
 	// the key of a generation is fixed by the call that created it
 	for _, c := range w.b.Calls {
